@@ -300,6 +300,7 @@ struct OpGen {
   bool bools;
   unsigned bvw = 0;
   bool partition = false;
+  bool big_probes = false;
   OpGen(Rng &rr, int n, bool lg, bool bl) : r(rr), nregs(n), large(lg), bools(bl) {}
   std::string iv() { return "v" + std::to_string(r.below(N_INT)); }
   std::string bv() { return "p" + std::to_string(r.below(N_BOOL)); }
@@ -377,6 +378,32 @@ struct OpGen {
   }
   Json gen(bool lattice_ops, bool benign, bool alias) {
     for (;;) {
+      if (big_probes && r.chance(1, 12)) {
+        // overflow-check probe (raw int64 weights): one operation with a result near
+        // 2^62 / 2^63 on a FRESH top value, judged at once and discarded
+        Json j = op("big_probe");
+        j.set("kind", (long)r.below(3));
+        j.set("x", iv());
+        j.set("y", iv());
+        j.set("z", iv());
+        mpz_class K;
+        mpz_ui_pow_ui(K.get_mpz_t(), 2, r.coin() ? 62 : (r.coin() ? 63 : 61));
+        K += (long)r.range(-2, 2);
+        if (r.chance(1, 3))
+          K = K * 3 / 2;
+        if (r.coin())
+          K = -K;
+        j.set("n", zs(K));
+        // two positive factors around 2^31.2: the product lies in [2^62, 2^63)
+        mpz_class a, b;
+        mpz_ui_pow_ui(a.get_mpz_t(), 2, 31);
+        mpz_ui_pow_ui(b.get_mpz_t(), 2, 31);
+        a += (long)r.range(0, 800000000);
+        b += (long)r.range(0, 800000000);
+        j.set("a", zs(a));
+        j.set("b", zs(b));
+        return j;
+      }
       if (partition && r.chance(1, 8)) {
         // value-partitioning directive: no concrete effect
         Json j = op("partition");
@@ -1189,6 +1216,59 @@ struct Interp {
       }
       return true;
     }
+    if (o == "big_probe") {
+      // DefaultParams graphs (raw int64 weights) document that DBM *operations* may
+      // overflow, but every conversion of a number into a weight is checked. The probe
+      // applies one operation whose only hazard is that conversion to a fresh top value
+      // and judges the result with the queries that do not compute sums.
+      AbsVal::P t = regs[0].val->make_top();
+      std::string x = op.at("x").as_str(), y = op.at("y").as_str(), z = op.at("z").as_str();
+      mpz_class K(op.at("n").as_str("0")), a(op.at("a").as_str("1")), b(op.at("b").as_str("1"));
+      Witness w;
+      long kind = (long)op.at("kind").as_int() % 3;
+      if (kind == 1 && (x == y || x == z || y == z))
+        kind = 2;
+      if (kind == 2 && x == y)
+        return true;
+      // keep every *sum or difference of two bounds* inside int64 (an overflow there is
+      // the documented limitation), so that the conversion check is the only hazard
+      mpz_class two62, two63;
+      mpz_ui_pow_ui(two62.get_mpz_t(), 2, 62);
+      mpz_ui_pow_ui(two63.get_mpz_t(), 2, 63);
+      if (kind == 0 && K == -two63)
+        return true; // negating INT64_MIN is a DBM operation, not a conversion
+      if (kind == 1 && (a <= 0 || b <= 0 || a * b >= two63 - two62 / 1000))
+        return true;
+      if (kind == 2 && abs(K) >= two62 - 8)
+        return true;
+      if (kind == 0) {
+        t->assign(cx.v(x), lin_exp_t(to_num(K)));
+        w.i[x] = K;
+      } else if (kind == 1) {
+        t->assign(cx.v(y), lin_exp_t(to_num(a)));
+        t->assign(cx.v(z), lin_exp_t(to_num(b)));
+        t->apply(crab::domains::OP_MULTIPLICATION, cx.v(x), cx.v(y), cx.v(z));
+        w.i[y] = a;
+        w.i[z] = b;
+        w.i[x] = a * b;
+      } else {
+        t->assign(cx.v(y), lin_exp_t(to_num(K)));
+        t->apply(crab::domains::OP_OR, cx.v(x), cx.v(y), cx.v(y)); // x := y | y = y
+        w.i[y] = K;
+        w.i[x] = K;
+      }
+      GammaOpts go;
+      go.probes = false;
+      go.point_meet = false;
+      go.export_disj = false;
+      GammaResult g = in_gamma(*t, sigma_of_witness(cx, w), go);
+      st.inc("big_probes");
+      if (!g.ok) {
+        violation("witness_lost_after_big_probe", g.item, g.detail + " ; value=" + t->str());
+        return false;
+      }
+      return true;
+    }
     if (o == "partition") {
       Reg &rg = R("r");
       rg.val->intrinsic(op.at("end").as_bool() ? "value_partition_end" : "value_partition_start",
@@ -1362,6 +1442,7 @@ Case gen_hist(const std::string &prop, Rng &r, const Tier &t, const std::vector<
   bool bools = (di->caps & CAP_BOOL) ? true : r.chance(1, 6);
   OpGen g(r, nregs, large, bools);
   g.partition = (di->caps & CAP_PARTITION) != 0;
+  g.big_probes = (di->caps & CAP_INT64) != 0;
   if (di->caps & CAP_BV) {
     static const unsigned ws[] = {4, 8, 8, 8, 16, 32, 32, 64};
     g.bvw = ws[r.below(8)];
